@@ -17,11 +17,12 @@ MANIFEST = {
             "The backend emitters (REX, ModRM/SIB/disp incl. compressed disp8, VEX2/VEX3/XOP/EVEX prefix synthesis, immediates) are transcribed "
             "to Lean and proved for ALL field values to round-trip through the SDM field layout; the transcription and the front-end classes are "
             "tied to the real encoder by byte-for-byte correspondence on the same sweep.",
-    "note": "Proved (all inputs): backend round trips in Props/C01.lean. Tested (sweep judged by the Lean decoder, not proved): the front-end "
+    "note": "Proved (all inputs): backend round trips in Props/C01.lean; front_cls_correct_* (Props/C01Front.lean + C01Rows.lean: symbolic layer + "
+            "decide over the regenerated rows) for the register forms of VexRvm/VexRm/VexRvmi/VexRmi and their _Lx classes in 64-bit mode. Tested (sweep judged by the Lean decoder, not proved): the front-end "
             "dispatch of encoding classes without a class theorem, the opcode tables. Trusted: Lean kernel + bv_decide certificates; "
             "Spec/X86Decode.lean as the reading of the SDM; db/x86.js + tools/gen_c01.py (with its listed database errata); harness/driver/diff.",
 }
-MODS = ["AsmjitVerif.Props.C01"]
+MODS = ["AsmjitVerif.Props.C01", "AsmjitVerif.Props.C01Front", "AsmjitVerif.Props.C01Rows"]
 BASE = c01_forms.BASE_ADDR
 
 # classes of known, not (yet) repaired findings -> stable keys (known_findings.json)
@@ -43,9 +44,23 @@ def key_of(name, reason, form=None):
     return "enc:" + name
 
 
+def instruction_rows(h, kept):
+    """rows of the compiled instruction tables (harness `row`): {name: [id, encoding, main opcode, alt opcode, inst flags, avx512 flags]}"""
+    names = sorted({f["name"] for f, _ in kept})
+    out, rc, err = vlib.run_lines([str(h)], ["row " + n for n in names])
+    return {n: r.split()[1:] for n, r in zip(names, out) if r.startswith("row ") and r != "row none"}
+
+
 def generate():
-    """no Gen/*.lean file is imported by C01's Lean modules (the database is handed to the driver as `form` lines)"""
-    return None
+    """Gen/X86ClassRows.lean: (row of the compiled instruction tables, database form) pairs of the register forms of the VEX-family
+    classes; Props/C01Rows.lean re-proves the table layer over them on every run (`decide +kernel`)."""
+    db = gen_c01.load_db()
+    flines, kept, skipped = gen_c01.form_lines(db)
+    h = vlib.build_harness("c01")
+    rows = instruction_rows(h, kept)
+    src, counts = gen_c01.class_rows_lean(kept, rows)
+    vlib.gen_write("AsmjitVerif/Gen/X86ClassRows.lean", src)
+    return counts
 
 
 def run_resilient(cmd, lines):
@@ -114,6 +129,10 @@ def run(res):
     except gen_c01.TranslateError as e:
         res.violation("translator gen_c01 no longer understands the database: %s" % e, {"unchecked": str(e)}, False, key="obligation")
         return
+    try:
+        res.coverage["class_row_entries"] = generate()
+    except Exception as e:
+        broken.append("translator gen_c01.class_rows_lean: %s" % e)
     res.coverage["db_forms"] = len(db["forms"])
     res.coverage["db_forms_translated"] = len(kept)
     res.coverage["db_forms_skipped"] = collections.Counter(s[2][:40] for s in skipped)
